@@ -164,5 +164,28 @@ int main(int argc, char** argv) {
       if (r % 4 == 0) run_multi(tr, st, 2, 5, {2, 3, 5}, minlen, rng() % 2 == 0, "random");
     }
   }
+  // dense graphs with many simultaneously open H1 classes killed by random triangles, p > 2: annotation columns with a
+  // common support of three or more classes that differ in a late coefficient (argv[4] complexes, default none)
+  int n_dense = argc >= 5 ? std::atoi(argv[4]) : 0;
+  if (n_dense > 0) {
+    Trace tr(outdir + "/pc_dense.ndjson");
+    for (int r = 0; r < n_dense; ++r) {
+      ST st;
+      int n = 11 + static_cast<int>(rng() % 3);
+      double f = 0;
+      for (int v = 0; v < n; ++v) st.insert_simplex({v}, 0.);
+      std::vector<std::pair<int, int>> edges;
+      for (int a = 0; a < n; ++a) for (int b = a + 1; b < n; ++b) edges.emplace_back(a, b);
+      std::shuffle(edges.begin(), edges.end(), rng);
+      for (auto& e : edges) st.insert_simplex({e.first, e.second}, f += 1);
+      std::vector<std::vector<int>> tris;
+      for (int a = 0; a < n; ++a) for (int b = a + 1; b < n; ++b) for (int c = b + 1; c < n; ++c) tris.push_back({a, b, c});
+      std::shuffle(tris.begin(), tris.end(), rng);
+      int T = 90 + static_cast<int>(rng() % 30);
+      for (int k = 0; k < T && k < static_cast<int>(tris.size()); ++k) st.insert_simplex(tris[k], f += 1);
+      const int ps[] = {3, 5, 7};
+      run_zp(tr, st, ps[rng() % 3], 0, true, "dense");
+    }
+  }
   return 0;
 }
